@@ -198,6 +198,8 @@ def stored_final_block(ck, P, R="ATOM/stored-final-block"):
 def run(ck):
     P = prog("K1")
     ck.configs.add("K1")
+    from .. import guards as _gas
+    _gas.arm_store_before_suspend(ck, P, fields=("adler", "gzindex"))
     n = tables.encoder_tables(ck, P, "CONST/enc-rfc")
     ck.extra["table_entries_compared"] = n
     ck.extra["exhaustive"] = True
